@@ -604,7 +604,7 @@ def r322(ctx, core, rule='R3.22'):
     f = core.func('read_data_page_v2')
     cfg = CFG(f)
     hyb = [c for c in walk_no_nested(f) if isinstance(c, ast.Call) and (callee(c) or '').endswith('read_rle_bit_packed_hybrid')]
-    for i, c in enumerate(sorted(hyb, key=lambda x: x.lineno)):
+    for i, c in enumerate(sorted(hyb, key=lambda x: (x.lineno, x.col_offset))):
         it = kwarg(c, 'itemsize', 4)
         ok = isinstance(it, ast.Constant) and it.value in (1, 4) or (it is not None and 'itemsize' in norm(it))
         ctx.ob(rule, 'core.read_data_page_v2:hybrid-itemsize-is-the-output-item-size:#%d' % i, ok,
